@@ -144,6 +144,8 @@ def gen_cfg(rng, rich, depth=0):
 def gen_node(rng, depth, root_ad, opts, name=None, want_default=False):
     """one collection spec; `opts`: mixed (allow differing auto_dash), rich (configs), clash (allow name clashes)"""
     node = {"name": name, "ad": None, "tasks": [], "colls": [], "cfg": {}, "via": rng.choice(["methods", "methods", "ctor"])}
+    if want_default:
+        node["via"] = "methods"
     if depth == 0:
         node["ad"] = root_ad
     else:
@@ -184,7 +186,7 @@ def gen_node(rng, depth, root_ad, opts, name=None, want_default=False):
     if depth < 2:
         nk = rng.choice([0, 1, 1, 2, 2, 3]) if depth == 0 else rng.choice([0, 0, 1, 1, 2])
         for cn in rng.sample(CN, nk):
-            mk_default = (not have_default) and node["via"] == "methods" and rng.random() < (0.6 if want_default else 0.3)
+            mk_default = (not have_default) and node["via"] == "methods" and rng.random() < (0.7 if want_default else 0.4)
             sub = gen_node(rng, depth + 1, root_ad, opts, name=cn if rng.random() < 0.8 else None, want_default=mk_default)
             k = {"node": sub, "bind": None, "default": False}
             if sub["name"] is None or rng.random() < 0.2:
@@ -209,6 +211,19 @@ def gen_node(rng, depth, root_ad, opts, name=None, want_default=False):
                         t["default"] = "decl"
             taken.add(local)
             node["colls"].append(k)
+    if want_default and not have_default and node["via"] == "methods":
+        # the parent made this collection its default: give it a default of its own (a chain when it is a sub-collection)
+        plain_kids = [k for k in node["colls"] if not k["node"].get("module")]
+        if plain_kids and rng.random() < 0.6:
+            k = plain_kids[0]
+            k["default"] = True
+            if k["node"]["via"] == "methods" and k["node"]["tasks"] and not any(t["default"] for t in k["node"]["tasks"]) \
+                    and not any(kk["default"] for kk in k["node"]["colls"]):
+                k["node"]["tasks"][0]["default"] = "add"
+            have_default = True
+        elif node["tasks"]:
+            node["tasks"][0]["default"] = "add"
+            have_default = True
     if opts["clash"] and node["via"] == "methods" and rng.random() < 0.5:
         # deliberately ill-formed: an alias that is also another task's or a sub-collection's name
         victims = [norm(ad, t["bind"] or t["tname"] or t["fn"]) for t in node["tasks"]]
@@ -455,7 +470,7 @@ def enc(c):
     als = "&".join("%s>%s" % (a, k) for a, k in c.tasks.aliases.items())
     kids = "".join("%s=%s" % (k, enc(sc)) for k, sc in dict.items(c.collections))
     return "(%s;%d;%s;%s;%s;%s;[%s])" % (opt(c.name), 1 if c.auto_dash_names else 0, opt(c.default),
-                                         enc_val(c._configuration), tasks, als, kids)
+                                         enc_val(c.configuration()), tasks, als, kids)
 
 
 def canon_tree(c):
@@ -463,7 +478,7 @@ def canon_tree(c):
     als = "&".join(sorted("%s>%s" % (a, k) for a, k in c.tasks.aliases.items()))
     kids = "".join(sorted("%s=%s" % (k, canon_tree(sc)) for k, sc in dict.items(c.collections)))
     return "(%s;%d;%s;%s;%s;%s;[%s])" % (opt(c.name), 1 if c.auto_dash_names else 0, opt(c.default),
-                                         canon_val(c._configuration), tasks, als, kids)
+                                         canon_val(c.configuration()), tasks, als, kids)
 
 
 def encodable(c):
@@ -596,7 +611,8 @@ def parse_nested(text, root):
 
 
 def canon_flat(pairs):
-    return ";".join(sorted("%s=%s" % (n, ",".join(sorted(a))) for n, a in pairs))
+    """collection-name shortcuts shown among the aliases (a prefix of the name itself) are not constrained: dropped"""
+    return ";".join(sorted("%s=%s" % (n, ",".join(sorted(x for x in a if not n.startswith(x + ".")))) for n, a in pairs))
 
 
 def canon_nested(lines):
@@ -605,7 +621,7 @@ def canon_nested(lines):
         if l[0] == "c":
             out.append("c:%s:%s" % ("/".join(l[1]), l[2]))
         else:
-            out.append("t:%s:%s:%s:%s" % ("/".join(l[1]), l[2], "*" if l[3] else "-", ",".join(sorted(l[4]))))
+            out.append("t:%s:%s:%s" % ("/".join(l[1]), l[2], ",".join(sorted(l[4]))))  # the default marker '*' is not constrained
     return ";".join(sorted(out))
 
 
@@ -995,6 +1011,15 @@ def run_trees(ctx, out, rich, oracle, ntrees, cand_limit, nontrivial=nontrivial_
         except RecursionError:
             out.hist["illformed_recursion"] += 1
             continue
+        except Exception as e:  # the real code raised where the modelled interface never does
+            out.case(case, True)
+            if well_formed(spec2):
+                out.hist["fail_unexpected-exception"] += 1
+                out.fail({"tree": strip(spec), "names": names[:8], "check": "unexpected-exception"},
+                         "unexpected-exception: observing the tree raised %s: %s" % (type(e).__name__, e))
+            else:
+                out.hist["illformed_exception"] += 1
+            continue
         for f in feats:
             out.hist[f] += 1
         out.case(case, nontrivial(spec2, feats))
@@ -1022,7 +1047,13 @@ def run_trees(ctx, out, rich, oracle, ntrees, cand_limit, nontrivial=nontrivial_
         elif ctx.model_ok:
             out.hist["not_encodable"] += 1
         seen_kinds = set()
-        for kind, why, involved in oracle(spec2, root, b, names, out.hist):
+        try:
+            found = oracle(spec2, root, b, names, out.hist)
+        except RecursionError:
+            found = []
+        except Exception as e:
+            found = [("unexpected-exception", "evaluating the property on the tree raised %s: %s" % (type(e).__name__, e), [])]
+        for kind, why, involved in found:
             out.hist["fail_" + kind] += 1
             if kind in seen_kinds:
                 continue  # one record per kind and tree (the list of recorded failures is bounded)
@@ -1074,6 +1105,12 @@ def run(ctx):
     return out
 
 
+def observe_all(root, names):
+    parser = impl_parser(root)
+    flat, nested, js, _ = listings(root) if parser is not None else ([], [], None, None)
+    return impl_answers(root, names, parser, flat, nested, js)
+
+
 def replay(case):
     if case.get("tree") is None:
         from invoke import Collection
@@ -1087,14 +1124,20 @@ def replay(case):
         spec, root, b = build_case(case["tree"])
     except ValueError as e:
         return True, "the API refuses this tree (%s)" % e
-    fails = oracle_c10(spec, root, b, case["names"])
+    try:
+        observe_all(root, case["names"])
+        fails = oracle_c10(spec, root, b, case["names"])
+    except SettingsClash:
+        return True, "settings along a path are type-inconsistent (don't-care)"
+    except Exception as e:
+        return False, "unexpected-exception: observing the tree raised %s: %s" % (type(e).__name__, e)
     for n in case["names"]:
         res, t, cfg = impl_lookup(root, n)
         why = impl_views_agree(root, n, res, t, cfg)
         if why:
             fails.append(("views", "%r: %s" % (n, why), [n]))
     kind = case.get("check")
-    if kind and any(f[0] == kind for f in fails):
+    if kind:  # a replay file names the kind of failure it recorded: only that kind counts
         fails = [f for f in fails if f[0] == kind]
     if fails:
         return False, "; ".join("%s: %s" % (k, w) for k, w, _ in fails[:3])
